@@ -701,11 +701,13 @@ Print Assumptions C09_source_constants.
         most 2^31-1024 bytes, and V in {27,28} for the one digest signed ([v_legacy_for]: fails only when
         x(kG) >= n, probability about 2^-128 on secp256k1), given [laws o], n o < 2^256, |H x| = 32.
    [ecrecover] of the specification is C05's model of SignatureData.RecoverDirect on V = 27 + yParity
-   ([secp_ecrecover o H]).  The corollaries of section 8 are then restated without signer_sound. *)
+   ([secp_ecrecover o H]).  A second form (9b') replaces every bound on fields and chain id by ONE guard on
+   the result, "the signed bytes are shorter than 2^64 bytes" (true of every Go slice).  The corollaries of
+   section 8 are then restated without signer_sound, with the weaker guards of 9b'. *)
 From Coq Require Import Lia Arith.
 From FFS Require Import Crypto.Ecdsa.
 From FFS Require Tx.Model Tx.Norm Tx.SignProofs Tx.SignProofs4 Secp.Model.
-From FFS Require Import Rpc.WithSigner Rpc.WithSignerE2E.
+From FFS Require Import Rpc.WithSigner Rpc.WithSignerShort Rpc.WithSignerE2E.
 
 (* 9a. The type bridge.  The field tuple / format C01's theorems speak about ([norm], [format_of Auto] of
        the bridged transaction) are the ones C09's specification speaks about; the decoder yields 20-byte
@@ -729,6 +731,30 @@ Theorem C09_signer_sound_from_C01 :
       raw_recovers_to H (secp_ecrecover o H) raw (Z.to_N chain) (c01_addr o H d) (requested_format t) (requested_fields t).
 Proof. exact c01_signer_sound. Qed.
 Print Assumptions C09_signer_sound_from_C01.
+
+(* 9b'. The same with the weakest size guard.  No bound on the fields, on the data or on the chain id beyond
+        chain >= 0: key in [1, n-1], V in {27,28} for the digest signed, and the returned bytes shorter than
+        2^64 bytes.  (C01's one-guard theorem needs V's legality before it knows that the payload is the
+        specification's preimage; C05's shape theorem — V is always in 27..30 — breaks the circle.)  The
+        guards of 9b imply these (second part). *)
+Theorem C09_signer_sound_short :
+  forall (o : group_ops) (H : bytes -> bytes) (nonce : Z -> bytes -> nat -> Z) (fuel : nat),
+    laws o -> (n o < Secp.Model.two256)%Z -> (forall x, length (H x) = 32%nat) ->
+    forall d t chain raw,
+      ((1 <= Z.of_N d < n o)%Z /\ (0 <= chain)%Z /\ v_legacy_for o H nonce fuel d t chain ->
+       c01_sign o H nonce fuel d (t, chain) = Ok raw ->
+       (N.of_nat (length raw) < 2 ^ 64)%N ->
+       raw_recovers_to H (secp_ecrecover o H) raw (Z.to_N chain) (c01_addr o H d) (requested_format t) (requested_fields t))
+      /\
+      (c01_guards o H nonce fuel d t chain -> c01_sign o H nonce fuel d (t, chain) = Ok raw ->
+       ((1 <= Z.of_N d < n o)%Z /\ (0 <= chain)%Z /\ v_legacy_for o H nonce fuel d t chain) /\
+       (N.of_nat (length raw) < 2 ^ 64)%N).
+Proof.
+  exact (fun o H nonce fuel L nf HL d t chain raw =>
+           conj (c01_signer_sound_short o H nonce fuel L nf HL d t chain raw)
+                (c01_guards_short o H nonce fuel L nf HL d t chain raw)).
+Qed.
+Print Assumptions C09_signer_sound_short.
 
 (* ... and the bytes spelt out: the signature inside is the one C05's SignDirect answers over the hash of the
    specification's preimage; it is canonical (low S) and verifies against d*G *)
@@ -787,7 +813,7 @@ Theorem C09_submission_specified_means :
       key_of_from (with_signer o H nonce fuel E0) c s a d /\ c01_addr o H d = a /\ In a (fs_accounts s) /\
       fr = raw_frame raw /\
       c01_sign o H nonce fuel d (set_nonce tx nonce_used, chain) = Ok raw /\
-      (fields_in_range (set_nonce tx nonce_used) -> v_legacy_for o H nonce fuel d (set_nonce tx nonce_used) chain ->
+      ((N.of_nat (length raw) < 2 ^ 64)%N -> v_legacy_for o H nonce fuel d (set_nonce tx nonce_used) chain ->
        raw_recovers_to H (secp_ecrecover o H) raw (Z.to_N chain) a
                        (requested_format tx) (requested_fields (set_nonce tx nonce_used))).
 Proof. exact (fun doc tsig o H nonce fuel E0 c parse_int backend chain s rq fr => iff_refl _). Qed.
@@ -799,7 +825,7 @@ Theorem C09_end_to_end_per_request :
   forall (doc tsig : Type) (o : group_ops) (H : bytes -> bytes) (nonce : Z -> bytes -> nat -> Z) (fuel : nat)
          (E0 : W.ext N (transaction * Z) bytes doc tsig) (c : W.config) parse_int backend chain,
     laws o -> (n o < Secp.Model.two256)%Z -> (forall x, length (H x) = 32%nat) ->
-    (0 <= chain <= 2 ^ 53)%Z ->
+    (0 <= chain)%Z ->
     reader_yields (with_signer o H nonce fuel E0) (key_in_range o) ->
     forall fs h rq out fr,
       let E := with_signer o H nonce fuel E0 in
@@ -818,7 +844,7 @@ Theorem C09_end_to_end_send_tx :
   forall (doc tsig : Type) (o : group_ops) (H : bytes -> bytes) (nonce : Z -> bytes -> nat -> Z) (fuel : nat)
          (E0 : W.ext N (transaction * Z) bytes doc tsig) (c : W.config) parse_int backend chain,
     laws o -> (n o < Secp.Model.two256)%Z -> (forall x, length (H x) = 32%nat) ->
-    (0 <= chain <= 2 ^ 53)%Z ->
+    (0 <= chain)%Z ->
     reader_yields (with_signer o H nonce fuel E0) (key_in_range o) ->
     forall fs h rq id p0 rest tx f a,
       let E := with_signer o H nonce fuel E0 in
@@ -845,14 +871,14 @@ Print Assumptions C09_end_to_end_send_tx.
        eth_sendTransaction member rq of that body and is its submission as specified (9d'): the first
        parameter of rq decodes to tx, `from` parses to a, the nonce is the one rq supplied or the pending
        count the backend reported, the key d is that of the key file owning a (address a, listed), the bytes
-       are Transaction.Sign's output for d, and — for fields below 2^256 and V in {27,28} — they are the
+       are Transaction.Sign's output for d, and — being shorter than 2^64 bytes, for V in {27,28} — they are the
        specification encoding (Tx/Spec.v) of exactly those fields in the requested format for the configured
        chain id and recover to a. *)
 Theorem C09_end_to_end :
   forall (doc tsig : Type) (o : group_ops) (H : bytes -> bytes) (nonce : Z -> bytes -> nat -> Z) (fuel : nat)
          (E0 : W.ext N (transaction * Z) bytes doc tsig) (c : W.config) parse_int lex backend chain,
     laws o -> (n o < Secp.Model.two256)%Z -> (forall x, length (H x) = 32%nat) ->
-    (0 <= chain <= 2 ^ 53)%Z ->
+    (0 <= chain)%Z ->
     reader_yields (with_signer o H nonce fuel E0) (key_in_range o) ->
     forall fs (hist : list request),
       let E := with_signer o H nonce fuel E0 in
@@ -997,6 +1023,7 @@ Example C09_end_to_end_nonvacuous :
   decode_transaction ex_parse (w_tx gA []) = Ok (set_nonce g_t1 None) /\
   decode_transaction ex_parse (g_tx155 gA) = Ok g_t2 /\
   c01_guards Toy.ops gH gnonce 1 5 g_t1 2022 /\ c01_guards Toy.ops gH gnonce 1 5 g_t2 2022 /\
+  (N.of_nat (length g_raw1) < 2 ^ 64)%N /\ (N.of_nat (length g_raw2) < 2 ^ 64)%N /\
   requested_format g_t1 = Eip1559 /\ requested_format g_t2 = Eip155 /\
   key_of_from gE wc (fs_state gE wc gfs [W.ORefresh _ _]) gA 5%N /\
   fs_accounts (fs_state gE wc gfs [W.ORefresh _ _]) = [gA; gB].
@@ -1015,7 +1042,8 @@ Proof.
     + apply (c01_signer_sound Toy.ops gH gnonce 1 Toy.toy_laws eq_refl gH_len 5 g_t1 2022%Z _ G1). vm_compute. reflexivity.
     + apply (c01_signer_sound Toy.ops gH gnonce 1 Toy.toy_laws eq_refl gH_len 5 g_t2 2022%Z _ G2). vm_compute. reflexivity.
   - split; [vm_compute; reflexivity|]. split; [vm_compute; reflexivity|].
-    split; [exact G1|]. split; [exact G2|]. split; [reflexivity|]. split; [reflexivity|]. split.
+    split; [exact G1|]. split; [exact G2|]. split; [vm_compute; reflexivity|]. split; [vm_compute; reflexivity|].
+    split; [reflexivity|]. split; [reflexivity|]. split.
     + split; [vm_compute; reflexivity|]. split; [vm_compute; auto|].
       right. exists (ghex gA ++ bs ".key"). repeat split; vm_compute; reflexivity.
     + vm_compute. reflexivity.
